@@ -6,13 +6,13 @@ hooks_commit = subprocess.run(['git', '-C', '/repo', 'log', '--format=%H', '--gr
 
 PARTIAL = 'partial: '
 CHECKS = {
- 'C01': dict(ref='§7 C01', text=PARTIAL + 'proved in Coq: the reference semantics RefSem.v is a function whose finished runs do not change with more budget (C01_ref_fuel_mono) and whose step count bounds the trace (C01_ref_steps); the compile-correctness simulation C01_full is NOT proved. The property is decided on explored programs by the reference interpreter extracted from RefSem.v against compile+run of the implementation (final values of every live activation, budget clause).',
+ 'C01': dict(ref='§7 C01', text=PARTIAL + 'proved in Coq: compile correctness for the straight-line fragment — assignments x := y | c | y + c | y - c: the generated code run on the VM halts with exactly the values of the reference semantics (C01_straightline_partial; the structured fragment with LOOP/WHILE is being proved, C01Stages.v); RefSem.v is a function whose finished runs do not change with more budget (C01_ref_fuel_mono, C01_ref_steps). The simulation for ALL sources (C01_full, stated in C01Statements.v) is NOT proved: the property is decided on explored programs by the reference interpreter extracted from RefSem.v against compile+run of the implementation (final values of every live activation, budget clause).',
              note='trusted: Coq kernel; RefSem.v as the statement of the language semantics (DESIGN Appendix A); the model front end that feeds it (tied by C02/C04 correspondence); exploration bounded'),
- 'C02': dict(ref='§7 C02', text='theorems for all inputs on the model: extraction, parsing and code generation are total (no undefined operation, budgets suffice): C02_extract_total, C02_extract_eof, C02_parse_total, C02_parser_shape, C02_gen_total; result shape C02_shape and forwarding of earlier errors C02_errors_forwarded; scanning total (C15_terminates). Macro application totality (C02_apply_total) is in progress (rests on C13_driver_safe). Tie: every stage on the malformed stream, ASan/UBSan/LSan build with timeout; known finding D11 (native stack depth) reproduced on every run.',
+ 'C02': dict(ref='§7 C02', text='theorems for all inputs on the model: every stage is total — scanning (C15_terminates), extraction (C02_extract_total, C02_extract_eof, C02_extract_macros_ok), macro application for every budget on top of the LR driver-safety theorem (C02_apply_total), parsing (C02_parse_total, C02_parser_shape), code generation (C02_gen_total); result shape C02_shape and forwarding of earlier errors C02_errors_forwarded. Tie: every stage on the malformed stream, ASan/UBSan/LSan build with timeout. Known findings reproduced on every run: D11 (native stack depth), D13 (error located at #root_file_context:0).',
              note=PARTIAL + 'real memory safety, leaks and wall time are runtime facts observed on explored inputs; the Gallina model has explicit UB outcomes for every unchecked access of the C++ (DESIGN Appendix B)'),
  'C03': dict(ref='§7 C03', text='theorems: the bytecode verifier is sound for ALL programs and ALL runs and debugger histories (C03_wf_safe, C03_wf_observe, C03_wf_safe_hist, C03_wf_meaning): a program accepted by wf_program never makes the VM leave its arrays. ' + PARTIAL + 'that the generator only emits wf programs (C03_gen_wf) is not proved: every emitted program of the exploration is validated by the extracted verified checker and executed under ASan/UBSan.',
              note='trusted: Coq kernel; VMModel/VMCheck tied to vm.cpp by the VM correspondence; translation validation bounded by the generator of sources'),
- 'C04': dict(ref='§7 C04', text=PARTIAL + 'proved for all inputs: the rejecting half (C04_reject, C04_errors_forwarded), parser totality, callees are earlier definitions. The equivalence with the documented grammar and the static rules is stated (AcceptStatements.v) and decided on explored token sequences by an independent recogniser (grammar + static rules + sugar) on the specification scanner\'s tokens.',
+ 'C04': dict(ref='§7 C04', text='theorems: no syntax error <=> the token kinds form a sentence of the documented grammar, for all end-of-file terminated streams (C04_parser, both directions, against SpecGrammar.v); on parser-delivered trees the generator reports no error <=> the static rules hold (callee complete earlier with matching arity, built-ins, jump targets set in the same body, literals < 2^31-1, no repeated parameter), stated as definedness of the reference flattening (C04_static); rejecting half C04_reject, C04_errors_forwarded. ' + PARTIAL + 'the sugar step (apply_macros with the standard macros = desugar, C04_sugar) is not proved; decided on explored token sequences by an independent recogniser on the specification scanner\'s tokens.',
              note='trusted: Coq kernel; SpecGrammar.v / explore_accept.py as transcriptions of the documented grammar; exploration bounded'),
  'C05': dict(ref='§7 C05', text='Theorems C05_exec_core, C05_ops_core, C05_transparent, C05_same_result (Coq, closed under the global context) prove for ALL programs with consistent tables and ALL API histories that the debugged machine is always at a point of the uninterrupted run and ends with the same values; the model is tied to vm.cpp by differential runs of exhaustive short and random long histories (ip, path hash, views), and a path oracle evaluates the implementation alone.',
              note='trusted: Coq kernel; hand-written VMModel.v tied to VM/src/vm.cpp only on the explored histories; hypothesis tables_ok is what C08_gen_tables delivers for generated programs'),
@@ -22,7 +22,7 @@ CHECKS = {
              note='trusted: Coq kernel; RefSem.v including its rule for where a new line starts; exploration bounded'),
  'C08': dict(ref='§7 C08', text='theorems for ALL syntax trees: the generator\'s tables are consistent and contain no BREAK (C08_gen_tables), tables_ok means inverse tables and listed <=> break opcode (C08_tables_ok_meaning), every available location is outside the hidden file and is the position of a tree node (C08_locations_ast), every tree node stands at a token of the parsed stream (C08_parser_positions). Tie: tables of every emitted program against the generator model; oracle: extracted checker + token positions of the scanned text.',
              note='trusted: Coq kernel; GenModel.v/Parser.v tied to gen.cpp/parse.cpp on explored sources; the step "macro expansion keeps token positions" is not proved'),
- 'C09': dict(ref='§7 C09', text='theorems for all streams and macro sets: the step taken is a reported candidate that no reported candidate beats (priority, leftmost, longest), everything outside the range is untouched (C09_choice, C09_none, C09_bins_ok), the replacement is the body with $n -> slot n (C09_body), detection is leftmost (C09_leftmost), iteration = steps until none or budget (C09_iterate); C09_refuted_at_pinned documents D10. That a detection is a match of the pattern (C09_detect_sound) is being proved on top of C13_sound. Tie: scan+extract+apply at budget 1; oracle: brute-force matcher enumerating all valid steps.',
+ 'C09': dict(ref='§7 C09', text='theorems for all streams and macro sets: the step taken is a reported candidate that no reported candidate beats (priority, leftmost, longest), everything outside the range is untouched (C09_choice, C09_none, C09_bins_ok), the replacement is the body with $n -> slot n (C09_body), detection is leftmost (C09_leftmost), a detection IS a match of the pattern in the declarative sense — literal kinds and texts, slots deriving from their non-terminal (C09_detect_sound, on top of C13_sound), iteration = steps until none or budget (C09_iterate); C09_refuted_at_pinned documents D10. Tie: scan+extract+apply at budget 1; oracle: brute-force matcher enumerating all valid steps.',
              note=PARTIAL + 'completeness of detection (every match is found) rests on LR completeness, not proved; decided on explored streams'),
  'C10': dict(ref='§7 C10', text='theorems: decimal rendering is injective, temporary names of different passes differ for ANY file names and texts, different indices differ, a renamed temporary is never a scannable identifier, a loop counter or "error" (C10_dec_inj, C10_pass_inj, C10_index_inj, C10_not_user), and every pass number is used by at most one rewriting step (C10_one_rewrite_per_pass). Name format pieces are translated from macro.cpp on every run. Tie: apply at budgets 1..11 on nested/repeated/mutually nested uses.',
              note='trusted: Coq kernel; same-file hypothesis for bodies (an include inside a macro body is outside it)'),
